@@ -226,6 +226,7 @@ def shard(ctx, acc):
       nest, jump, ncomp = 0, False, 0
     nt = nu >= 2 and ncomp >= 1
     cls = ['features=' + '+'.join(config['features']), 'unusual_forms=%d' % min(nu, 6)]
+    cls += [k for k in prog['meta'] if k.startswith('excluded:')]
     for k in ('subscript_delete', 'def_with_default_and_decorator', 'chained_compare', 'lambda_def', 'comprehension', 'print_call'):
       if k in prog['meta']:
         cls.append('has:' + k)
